@@ -270,6 +270,16 @@ fn replay_one(w: &World, b: &Value, out: &mut Outcome) -> Verdict {
                     Err(p) => return Verdict::Violation("bundle-panics", format!("step {k} from_secrets: {p}")),
                 }
             }
+            "reload" => {
+                // the serde form of the state (a list of secrets) and back
+                match catch(move || {
+                    let bytes = p2panda_core::cbor::encode_cbor(&y).expect("encode bundle");
+                    p2panda_core::cbor::decode_cbor::<SecretBundleState, _>(&bytes[..]).expect("decode bundle")
+                }) {
+                    Ok(n) => y = n,
+                    Err(p) => return Verdict::Violation("bundle-panics", format!("step {k} serde round trip: {p}")),
+                }
+            }
             "generate" => {
                 let spec_err = step["err"].as_bool().unwrap();
                 let spec_overflow = step["overflow"].as_bool().unwrap();
@@ -499,7 +509,13 @@ fn record(args: &Args) {
             out.mark_distinct(format!("{run}:{call}"));
             let mut ids = Vec::new();
             let mut ev;
-            let mut op = if call == 0 && rng.chance(1, 2) { 4 } else { rng.below(4) };
+            let mut op = if call == 0 && rng.chance(1, 2) {
+                4
+            } else if rng.chance(1, 8) {
+                5
+            } else {
+                rng.below(4)
+            };
             if op == 3 && top_run && y.is_empty() {
                 op = 0; // real `now` is not representable in a shifted run
             }
@@ -523,6 +539,13 @@ fn record(args: &Args) {
                         let (n, removed) = SecretBundle::remove(y, &id);
                         assert_eq!(removed.is_some(), had, "remove result vs contains");
                         n
+                    })
+                }
+                5 => {
+                    ev = json!({"ev": "Reload"});
+                    catch(move || {
+                        let bytes = p2panda_core::cbor::encode_cbor(&y).expect("encode bundle");
+                        p2panda_core::cbor::decode_cbor::<SecretBundleState, _>(&bytes[..]).expect("decode bundle")
                     })
                 }
                 2 | 4 => {
@@ -629,6 +652,7 @@ fn record(args: &Args) {
             match kind.as_str() {
                 "Insert" | "Remove" => ev["id"] = json!(rank[&ids[0]]),
                 "Generate" => ev["id"] = json!(ids.first().map(|i| rank[i]).unwrap_or(0)),
+                "Reload" => {}
                 _ => {
                     let tss: Vec<u64> = ev["tss"].as_array().unwrap().iter().map(|t| t.as_u64().unwrap()).collect();
                     let list: Vec<Value> = ids.iter().zip(tss).map(|(i, t)| json!([rank[i], t])).collect();
